@@ -201,12 +201,14 @@ func run(raw json.RawMessage) lib.Case {
 		coq = fmt.Sprintf("CBinary %d %s %s %s %s", n, res, lib.NatList(o.IDs), lib.Bool(o.LinksOK), lib.Bool(o.RidxOK))
 	case "star":
 		coq = fmt.Sprintf("CStar %d %s %s %s %s", n, res, lib.NatList(o.IDs), lib.Bool(o.LinksOK), lib.Bool(o.RidxOK))
-	case "big", "sim":
+	case "big":
 		coq = fmt.Sprintf("CBig %s %d %d %s %s %s %s", lib.NatList(in.Hosts), in.N, in.Nodes, res, lib.NatList(o.IDs), lib.Bool(o.LinksOK), lib.Bool(o.RidxOK))
+	case "sim":
+		coq = fmt.Sprintf("CSim %s %d %d %s %s %s %s", lib.NatList(in.Hosts), in.N, in.Nodes, res, lib.NatList(o.IDs), lib.Bool(o.LinksOK), lib.Bool(o.RidxOK))
 	case "ltbig":
-		coq = fmt.Sprintf("CBig %s %d %d %s %s %s %s", lib.NatList(make([]int, n)), in.N, in.Nodes, res, lib.NatList(o.IDs), lib.Bool(o.LinksOK), lib.Bool(o.RidxOK))
+		coq = fmt.Sprintf("CLtBig %d %d %d %s %s %s %s", in.Nodes, n, in.N, res, lib.NatList(o.IDs), lib.Bool(o.LinksOK), lib.Bool(o.RidxOK))
 	case "lttree":
-		coq = fmt.Sprintf("CBinary %d %s %s %s %s", n, res, lib.NatList(o.IDs), lib.Bool(o.LinksOK), lib.Bool(o.RidxOK))
+		coq = fmt.Sprintf("CLtTree %d %s %s %s %s", n, res, lib.NatList(o.IDs), lib.Bool(o.LinksOK), lib.Bool(o.RidxOK))
 	}
 	small := o
 	if len(small.Nodes) > 40 {
